@@ -756,6 +756,9 @@ class HierarchicalMachine(Machine):
             with self(state_name):
                 if state_name in [cur_src, cur_dst]:
                     continue
+                # filters are paths starting in the current scope: nothing declared in another branch can match
+                if (src_path and state_name != src_path[0]) or (dest_path and state_name != dest_path[0]):
+                    continue
                 self._remove_nested_transitions(trigger,
                                                 src_path if not src_path or state_name != src_path[0] else src_path[1:],
                                                 dest_path if not dest_path or state_name != dest_path[0] else dest_path[1:])
